@@ -30,7 +30,7 @@ inductive Line
   | assign (name : String) (value : String)         -- varAssignmentString (quote heuristic in render)
   | assignArith (name l op r : String)              -- `name="$((l op r))"`
   | assignTest (name : String) (t : Test) (a b : String)   -- `name="$(if t; then echo a; else echo b; fi)"`
-  | localAssign (name : String) (idx : Nat)         -- `local name="$idx"` (positional parameter of the function)
+  | localAssign (name : String) (idx : Nat)         -- `local name="${idx}"` (positional parameter of the function; braces: `$10` would be `${1}0`)
   | assignSliceLen (name src : String)              -- `name="$(eval "echo \${#src[@]}")"` (number of elements of the slice `src` names)
   | assignStrLen (name var : String)                -- `name="${#var}"` (length of the value of variable `var`)
   | sah (arr index value dflt : String)             -- `_sah ${arr} idx "v" "d"`
@@ -69,7 +69,7 @@ def Line.render : Line → String
   | .assign n v => s!"{n}=\"{v}\""
   | .assignArith n l op r => s!"{n}=\"$(({l}{op}{r}))\""
   | .assignTest n t a b => s!"{n}=\"$(if {t.render}; then echo {a}; else echo {b}; fi)\""
-  | .localAssign n i => s!"local {n}=\"${i}\""
+  | .localAssign n i => "local " ++ n ++ "=\"${" ++ toString i ++ "}\""
   | .assignSliceLen n src => n ++ "=\"$(eval \"echo \\${#" ++ src ++ "[@]}\")\""
   | .assignStrLen n v => n ++ "=\"${#" ++ v ++ "}\""
   | .sah a i v d => s!"_sah {a} {i} \"{v}\" \"{d}\""
